@@ -175,6 +175,12 @@ impl Exec {
                 return Some("poisoned".into());
             }
         }
+        // a binary op whose other operand is poisoned is not executed at all
+        if (t[0].ends_with(".union") || t[0].ends_with(".merge")) && t.len() >= 3 {
+            if let Some(Inst::Poisoned) = self.insts.get(&pu(t[2])) {
+                return Some("poisoned".into());
+            }
+        }
         let r = catch_unwind(AssertUnwindSafe(|| self.dispatch(&t, id)));
         match r {
             Ok(s) => Some(s),
